@@ -2,6 +2,7 @@ CONSTANTS
   MaxRows = 5
   MaxDepth = 3
   InitRowsA = {0, 1, 2, 3}
+  WithEmptyB = FALSE
 SPECIFICATION Spec
 VIEW View
 INVARIANT RowsIntact
